@@ -36,6 +36,13 @@ func Init(job string) (*LQClient, error) {
 
 	dbWriteSqlc := sqlc_model.New(dbWrite)
 
+	// URLs still CLAIMED at startup were handed out by a previous run that was stopped
+	// or killed before finishing them: nothing owns them anymore, make them available again.
+	if err := dbWriteSqlc.ResetClaimedURLs(context.Background()); err != nil {
+		logger.Error("error resetting claimed URLs", "err", err.Error(), "func", "lq.Init")
+		return nil, err
+	}
+
 	return &LQClient{
 		dbWrite:     dbWrite,
 		dbWriteSqlc: dbWriteSqlc,
